@@ -44,6 +44,9 @@ def encode(ins: Dict[str, Any]) -> List[int]:
     raise ValueError(k)
 
 
+_KEY_NAMES = None
+
+
 class RustMachine:
     impl = "rs"
 
@@ -69,6 +72,8 @@ class RustMachine:
             self.vh.call("rt.release_on", name=self.name)
         elif k == "TimerCfg":
             self.vh.call("rt.configure", name=self.name, cfg={"timer": {"enabled": True, "pm": ev["pm"], "ps": ev["ps"]}})
+        elif k == "Key":
+            self.vh.call("rt.key", name=self.name, code=ev["code"], press=bool(ev["press"]))
 
     def step_obs(self):
         return self.vh.call("rt.step_obs", name=self.name)
@@ -120,6 +125,12 @@ class PyMachine:
             self.emu.press_key("KEY_ON")
         elif k == "OnKeyUp":
             self.emu.release_key("KEY_ON")
+        elif k == "Key":
+            global _KEY_NAMES
+            if _KEY_NAMES is None:
+                from pce500.keyboard_matrix import KEY_LOCATIONS
+                _KEY_NAMES = {(loc.column << 3) | loc.row: name for name, loc in KEY_LOCATIONS.items()}
+            (self.emu.press_key if ev["press"] else self.emu.release_key)(_KEY_NAMES[ev["code"]])
         elif k == "TimerCfg":
             self.emu._timer_enabled = True
             sch.mti_period = ev["pm"]
